@@ -117,6 +117,9 @@ def program(draw, *, faults=False, members=False, maxdepth=2, max_leaves=6, limi
     if lim is None and unbounded:
         lim = draw(st.sampled_from([3 * tock, 5 * tock, 2.5 * tock, 8 * tock]))
     return {"tock": tock, "tyme": draw(st.sampled_from(list(start_tymes))), "limit": lim,
+            # None: start tyme given to the constructor; a number: the scheduler is constructed at that other tyme and the
+            # start tyme is passed to do() / ado()
+            "ctor_tyme": draw(st.sampled_from([None, None, None, 0.0, 10.0, 3.25])),
             "doers": doers, "pool": pool}
 
 
